@@ -392,6 +392,24 @@ void suite_rsmat(int tier) {
             if (got != acc) { oracle_fail("C04", "parity %d word %llu of (%d,%d) block size %llu is %04x, matrix*data gives %04x", r, (unsigned long long)(w / 2), k, m, (unsigned long long)pb, got, acc); r = m; break; }
         }
         if (mat) free_systematic_matrix(mat);
+        /* the code is over GF(2^16) whatever word size the caller asked for at creation */
+        if (t % 3 == 0) {
+            static const int ws[] = { 8, 32, 16, 64, 9 };
+            struct ec_args a; memset(&a, 0, sizeof a); a.k = k; a.m = m; a.hd = m; a.w = ws[rnd(5)]; a.ct = CHKSUM_NONE;
+            int d2 = liberasurecode_instance_create(EC_BACKEND_LIBERASURECODE_RS_VAND, &a);
+            if (d2 > 0) {
+                char **ed = NULL, **ep = NULL; uint64_t fl = 0;
+                if (liberasurecode_encode(d2, (char *)s.data, s.len, &ed, &ep, &fl) == 0) {
+                    int same = fl == s.flen;
+                    for (int i = 0; same && i < k; i++) same = !memcmp(ed[i], s.all[i], fl);
+                    for (int i = 0; same && i < m; i++) same = !memcmp(ep[i], s.all[k + i], fl);
+                    if (!same) oracle_fail("C04", "(%d,%d) len=%llu: fragments differ when the instance is created with w=%d (payload %llu vs %llu bytes)", k, m, (unsigned long long)s.len, a.w, (unsigned long long)(fl - HDR), (unsigned long long)pb);
+                    liberasurecode_encode_cleanup(d2, ed, ep);
+                } else oracle_fail("C04", "encode failed on an rs_vand instance created with w=%d", a.w);
+                liberasurecode_instance_destroy(d2);
+                stat_add("rsmat.w_variation", 1);
+            }
+        }
         char key[40]; snprintf(key, sizeof key, "rsmat.parity_bs_mod16_%llu", (unsigned long long)(pb % 16)); stat_add(key, 1);
         stripe_free(&s);
     }
